@@ -1,5 +1,6 @@
 import Ogen.HandlerStages_proof
 import Ogen.Generated.Facts_tmpl
+import Ogen.Generated.Facts_errors
 /-!
 # C15 — every request is answered, nothing is over-accepted (partial: the stage machine)
 
@@ -51,6 +52,16 @@ theorem facts_stage_order :
     Facts.Tmpl.stageOrder = modelStageOrder ∧
     Facts.Tmpl.returnsAfter.map (·.1) = ["security", "params", "body", "handler"] ∧
     Facts.Tmpl.returnsAfter.all (fun s => 1 ≤ s.2) = true := by decide
+
+/-- **(regenerated facts) the model's status constants are the ones `ogenerrors` reports**: `Code()` of the
+    error types the stages wrap their failures in, and the three cases of `ogenerrors.ErrorCode` -/
+theorem facts_status_codes :
+    Facts.Errors.codes.lookup "SecurityError" = some securityCode ∧
+    Facts.Errors.codes.lookup "DecodeParamsError" = some decodeCode ∧
+    Facts.Errors.codes.lookup "DecodeRequestError" = some decodeCode ∧
+    Facts.Errors.contentTypeCode = contentTypeCode ∧
+    Facts.Errors.notImplementedCode = notImplementedCode ∧
+    Facts.Errors.defaultCode = internalCode := by decide
 
 /-- (regenerated facts) an optional request body counts as absent only when there is neither a Content-Type
     header nor any body byte — the conjunction, not the disjunction -/
